@@ -347,6 +347,55 @@ def replay_owner(r):
     return {"reproduced": False, "detail": f"{len(outs)} path(s); warnings: {[str(c) for c, _ in seen]}"}
 
 
+def engine_logs_frame_cases():
+    """the engine's record of cut loops only grows while it runs messages (nothing resets it between the
+    states of one test, whose LOOP_BOUND check reads it once at the end)"""
+    out = []
+
+    def harness(interp):
+        ctx = interp.ctx
+        from contracts.common import mk_ex, mk_sevm
+
+        sevm = mk_sevm()
+        logs0 = sevm.logs
+        logs0.bounded_loops.append((7, (1,)))
+        pre = mk_ex(sevm)
+        ran = []
+
+        def run(i, a, k):
+            ran.append(a[1])
+            a[0].logs.bounded_loops.append((9, (2,)))
+            return ["<end state>"]
+
+        interp.contracts["halmos.sevm:SEVM.run"] = run
+        msg = hs.Message(target=next(iter(pre.code)), caller=z3.BitVec("c", 160), origin=z3.BitVec("o", 160), value=0, data=ByteVec(), call_scheme=0xF1)
+        outs = list(interp.call(hs.SEVM.__dict__["run_message"], [sevm, pre, msg, pre.path], {}))
+        ctx.oblige("run_message yields what run yields for one fresh top-level state", z3.BoolVal(outs == ["<end state>"] and len(ran) == 1))
+        ctx.oblige("frame: run_message keeps the engine's record of cut loops (same object, earlier entries kept, new ones added)", z3.BoolVal(sevm.logs is logs0 and logs0.bounded_loops == [(7, (1,)), (9, (2,))]), info={"logs": str(sevm.logs.bounded_loops)})
+
+    out.append(Case(f"{PROP}/sevm.SEVM.run_message#logs-frame", "one message after an earlier cut", harness, sources=("halmos.sevm:SEVM.run_message",)))
+
+    def ground_like(interp):
+        ctx = interp.ctx
+        import ast as _ast
+
+        sf = loader.module_file("halmos.sevm")
+        bad = []
+        for n in _ast.walk(sf.tree):
+            if isinstance(n, (_ast.Assign, _ast.AugAssign)):
+                tg = n.targets if isinstance(n, _ast.Assign) else [n.target]
+                for t_ in tg:
+                    src = _ast.unparse(t_)
+                    if src in ("self.logs", "self.logs.bounded_loops") and not (isinstance(n, _ast.Assign) and _ast.unparse(n.value) in ("HalmosLogs()", "[]") and any(isinstance(f, _ast.FunctionDef) and f.name == "__init__" and n in list(_ast.walk(f)) for f in _ast.walk(sf.tree))):
+                        bad.append(f"line {n.lineno}: {_ast.unparse(n)[:60]}")
+            if isinstance(n, _ast.Call) and _ast.unparse(n.func) in ("self.logs.bounded_loops.clear", "self.logs.bounded_loops.pop"):
+                bad.append(f"line {n.lineno}: {_ast.unparse(n)[:60]}")
+        ctx.oblige("the record of cut loops is created in __init__ only and never reset or shrunk anywhere in sevm.py (syntactic)", z3.BoolVal(not bad), info={"statements": str(bad)[:200]})
+
+    out.append(Case(f"{PROP}/sevm.SEVM#logs-frame", "module scan", ground_like, sources=("halmos.sevm:SEVM.__init__",)))
+    return out
+
+
 def width_and_stuck_cases():
     from contracts import c05
 
@@ -382,7 +431,7 @@ def frontier_stuck_cases():
 
 
 def build_cases(tier="quick"):
-    return jumpi_cases() + depth_cases() + except_arm_cases() + loop_bound_cases() + owner_cases() + width_and_stuck_cases() + frontier_stuck_cases()
+    return jumpi_cases() + depth_cases() + except_arm_cases() + loop_bound_cases() + owner_cases() + engine_logs_frame_cases() + width_and_stuck_cases() + frontier_stuck_cases()
 
 
 ASSUMPTIONS = [
